@@ -10,22 +10,33 @@ func (s *Selector) SelectTargets(
 	graph *dag.DirectedTargetGraph,
 ) {
 	for _, node := range graph.GetNodes() {
-		if s.nodeMatchesFilters(node) && nodeMatchesPlatform(node) {
+		if s.Match(graph, node) {
 			node.Select()
 		}
 	}
 }
 
-func (s *Selector) FilterNodes(nodes []model.BuildNode) []model.BuildNode {
+func (s *Selector) FilterNodes(graph *dag.DirectedTargetGraph, nodes []model.BuildNode) []model.BuildNode {
 	var filteredLabels []model.BuildNode
 	for _, node := range nodes {
-		if s.Match(node) {
+		if s.Match(graph, node) {
 			filteredLabels = append(filteredLabels, node)
 		}
 	}
 	return filteredLabels
 }
 
-func (s *Selector) Match(node model.BuildNode) bool {
-	return s.nodeMatchesFilters(node) && nodeMatchesPlatform(node)
+// Match checks a node of the graph against the filters and the platform selector.
+// An alias matches if and only if the target it resolves to does.
+func (s *Selector) Match(graph *dag.DirectedTargetGraph, node model.BuildNode) bool {
+	return s.nodeMatchesFilters(graph, node) && nodeMatchesPlatform(standsFor(graph, node))
+}
+
+// MatchTarget checks a target that is not part of a graph (completions).
+func (s *Selector) MatchTarget(target *model.Target) bool {
+	return s.targetMatchesTypeSelection(target) &&
+		s.targetMatchesPatterns(target) &&
+		s.targetTagsMatch(target) &&
+		!s.targetExcludeTagsMatch(target) &&
+		nodeMatchesPlatform(target)
 }
